@@ -18,6 +18,14 @@ def main():
         os.environ["VERIF_TIER"] = a.tier
     if a.seed is not None:
         os.environ["VERIF_SEED"] = str(a.seed)
+    repo = os.environ.get("TYPHON_REPO")
+    if repo and os.path.realpath(repo) != "/repo":
+        # test a scratch worktree instead of /repo (mutation self-tests): it must shadow the
+        # editable install, also in worker processes
+        sys.path.insert(0, repo)
+        os.environ["PYTHONPATH"] = repo + os.pathsep + os.environ.get("PYTHONPATH", "")
+        import typhon
+        assert os.path.realpath(typhon.__file__).startswith(os.path.realpath(repo)), typhon.__file__
     import vlib
     mod = importlib.import_module("props." + a.prop.lower())
     if a.replay:
